@@ -442,3 +442,5 @@ M("r5-visited-break", "C09", "C04.R9", ITF, "            if node not in visited:
   "            visited.add(node)\n            result.append(node)\n            for neighbor in self._dependencies[node]:\n                if neighbor in visited:\n                    break\n                visited.add(neighbor)\n                dfs(neighbor)")
 M("r5-shorter-results-one-level", "C15", "C15.R9", "contrib/shorter_results.py", "        fields.extend(_get_all_fields(class_dict[base.id], class_dict))", "        fields.extend(f for f in class_dict[base.id].body if isinstance(f, ast.AnnAssign))")
 M("r5-template-bypasses-map", "C13", "C03.R5", CLF, 'generate_name(variable_names[self._data_variable])', 'generate_name(self._data_variable)')
+
+from . import mutants_seeded  # noqa: F401,E402  (mutants generated from the confirmed seeded changes)
